@@ -192,6 +192,11 @@ def run_shard(spec):
         tg = gen.TermGen(rng, "full")
         term = tg.deferred_term(locs, rng.randrange(1, 6))
         try:
+            Shadow(world).eval(term)
+        except Exception as exc:
+            if type(exc).__name__ == "Discard":
+                continue
+        try:
             ea, eb = ra_.build(term), rb_.build(term)
         except Exception:
             counters["expr_python_rejects_at_build"] = counters.get("expr_python_rejects_at_build", 0) + 1
